@@ -83,6 +83,7 @@ class IdxAnalysis:
     plus rv/tmp classes for the 'rejected index => non-zero return' clause"""
 
     RD = {}
+    LOOKUP = {}     # fkey -> {param index: class | "tab"}: out-parameters that receive the index stored with a name in a symbol table
 
     def __init__(self, prog, f, ext_scalars, ext_arrays, pre_facts, summaries, is_api, get_summary=None):
         self.get_summary = get_summary
@@ -187,7 +188,7 @@ class IdxAnalysis:
         for ft in facts:
             if ft[0] in ("ext", "ge0", "lt") and (ft[1] == ("v", name) or (ft[1][0] == "el" and (ft[1][2] == name or ft[1][1] == name))):
                 continue
-            if ft[0] in ("dim", "zero", "pos", "nonpos", "from", "const") and ft[1] == name:
+            if ft[0] in ("dim", "zero", "pos", "nonpos", "from", "const", "lookup") and ft[1] == name:
                 continue
             out.add(ft)
         return out
@@ -261,6 +262,14 @@ class IdxAnalysis:
             return None
         if k == "C":
             self.check_call(b, e, st)
+            lk = self.lookup_outputs(e[1])
+            if lk:
+                fs = set(facts)
+                for v, cls in lk:
+                    fs = self.kill_var(fs, v)
+                    fs.add(("ext", ("v", v)))
+                    fs.add(("lookup", v, cls))
+                return [(rv, tmp, frozenset(fs))]
             return None
         if k == "R":
             if ("rej",) in facts and e[1] is not None and "int" in self.f.ret:
@@ -427,10 +436,46 @@ class IdxAnalysis:
                     if rec["state"] is None:
                         rec["state"] = (b["id"], st)
 
+    def lookup_outputs(self, c):
+        """(local, class) pairs: locals whose address this call hands to a symbol-table lookup (directly or through a wrapper)"""
+        g = self.prog.resolve(self.f, c[1]) if c[1] else None
+        if g is None or g.key not in self.LOOKUP:
+            return []
+        out = []
+        for k, cls in self.LOOKUP[g.key].items():
+            if k >= len(c[3]):
+                continue
+            a = strip(c[3][k])
+            if isinstance(a, list) and a and a[0] == "u" and a[1] == "&" and is_var(a[2]) and strip(a[2])[1] == "l":
+                if cls == "tab":
+                    fl = fields_of(apath(c[3][0])[2]) if c[3] else ()
+                    cls = STRUCT if any(x.endswith("::coltab") for x in fl) else ROW if any(x.endswith("::rowtab") for x in fl) else None
+                if cls:
+                    out.append((strip(a[2])[2], cls))
+        return out
+
     # ---- edges
     def refine(self, cond, truth, st):
         rv, tmp, facts = st
         fs = set(facts)
+        # the index stored with a name is -1 (no such entry / the objective's entry of the row table) or a valid position: a test that
+        # excludes -1 (or all negatives) validates it; for the column table a successful lookup does so too
+        for l, op, r in atoms(cond, truth):
+            for a, b_, o in ((l, r, op), (r, l, SWAP[op])):
+                if is_var(a):
+                    for ft in facts:
+                        if ft[0] == "lookup" and ft[1] == strip(a)[2]:
+                            cb = const_of(b_)
+                            if cb is not None and ((o == "!=" and cb == -1) or (o == ">=" and cb == 0) or (o == ">" and cb == -1)):
+                                fs.add(("ge0", ("v", ft[1])))
+                                fs.add(("lt", ("v", ft[1]), ft[2]))
+                a0 = strip(a)
+                if isinstance(a0, list) and a0 and a0[0] == "c" and const_of(b_) == 0 and o == "==":
+                    for v, cls in self.lookup_outputs(a0):
+                        if cls == STRUCT:
+                            fs.add(("ge0", ("v", v)))
+                            fs.add(("lt", ("v", v), cls))
+        facts = frozenset(fs)
         if not truth:
             # zero-iteration exit of a loop `i < n` with i == 0: the validations in its body hold vacuously
             for l, op, r in atoms(cond, True):
@@ -665,6 +710,44 @@ def build_summary(f, an):
     return summ
 
 
+LOOKUP_BASE = ("ILLsymboltab_lookup", "ILLsymboltab_getindex")
+
+
+def lookup_summary(prog):
+    """functions with an int* out-parameter that receives the index a symbol table stores with a name: the two table routines (class by
+    the table handed in) and every wrapper that passes its own out-parameter on (class by the table the wrapper names)"""
+    L = {}
+    for f in prog.funcs.values():
+        if f.name in LOOKUP_BASE:
+            for k, p_ in enumerate(f.params):
+                if p_[1].replace(" ", "") in ("int*", "int*const"):
+                    L[f.key] = {k: "tab"}
+    changed = True
+    while changed:
+        changed = False
+        for f in prog.funcs.values():
+            if f.live is None or f.key in L or "_dbl." in f.unit or "_mpf." in f.unit:
+                continue
+            for b, i, c in f.calls():
+                g = prog.resolve(f, c[1]) if c[1] else None
+                if g is None or g.key not in L:
+                    continue
+                for k, cls in L[g.key].items():
+                    if k >= len(c[3]):
+                        continue
+                    a = strip(c[3][k])
+                    if is_var(a) and isinstance(a[1], str) and a[1].startswith("p"):
+                        if cls == "tab":
+                            fl = fields_of(apath(c[3][0])[2]) if c[3] else ()
+                            cls2 = STRUCT if any(x.endswith("::coltab") for x in fl) else ROW if any(x.endswith("::rowtab") for x in fl) else None
+                        else:
+                            cls2 = cls
+                        if cls2:
+                            L.setdefault(f.key, {})[int(a[1][1:])] = cls2
+                            changed = True
+    return L
+
+
 def analyse_program(prog, prefix="mpq_"):
     """bottom-up: callee summaries (preconditions on index parameters) first, API functions last"""
     apis = {f.key: (f, pidx) for f, pidx in api_functions(prog, prefix)}
@@ -692,6 +775,7 @@ def analyse_program(prog, prefix="mpq_"):
     fset = {f.key for f in funcs}
     T = taint(prog, apis)
     IdxAnalysis.RD = return_dims(prog)
+    IdxAnalysis.LOOKUP = lookup_summary(prog)
     memo = {}
 
     def ext_params(g):
@@ -730,7 +814,9 @@ def analyse_program(prog, prefix="mpq_"):
                 ext_s.append(p[0])
             elif t in ("int *", "int *const", "int *restrict"):
                 ext_a.append(p[0])
-        if not ext_s and not ext_a:
+        has_lookup = any((prog.resolve(f, c[1]).key if prog.resolve(f, c[1]) is not None else None) in IdxAnalysis.LOOKUP
+                         for b, i, c in f.calls() if c[1])
+        if not ext_s and not ext_a and not has_lookup:
             continue
         an = IdxAnalysis(prog, f, ext_s, ext_a, (), summaries, k in apis, get_summary)
         relevant = False
